@@ -1,5 +1,6 @@
 pub mod common;
 pub mod c01;
+pub mod cap;
 
 use crate::engine::{CheckReport, RunCfg};
 use serde_json::Value;
@@ -13,5 +14,9 @@ pub struct PropEntry {
 pub fn registry() -> Vec<PropEntry> {
     vec![
         PropEntry { id: "C01", run: c01::run, replay: c01::replay },
+        PropEntry { id: "C02", run: cap::c02_run, replay: cap::c02_replay },
+        PropEntry { id: "C03", run: cap::c03_run, replay: cap::c03_replay },
+        PropEntry { id: "C09", run: cap::c09_run, replay: cap::c09_replay },
+        PropEntry { id: "C11", run: cap::c11_run, replay: cap::c11_replay },
     ]
 }
